@@ -34,9 +34,8 @@ def configs(tier):
 
 
 def _lw_term(m):
-    default = ("call", "Option::unwrap_or", (("call", "Option::copied", (("call", "[]::last", (m.LW,)),)), ("float", "0.0")))
-    lw = ("call", "Option::unwrap_or", (("call", "Option::copied", (
-        ("call", "[]::get", (m.LW, ("call", "Vec::len", (m.acc_state,)))),)), default))
+    default = ("call", "Option::unwrap_or", (("call", "[]::last", (m.LW,)), ("float", "0.0")))
+    lw = ("call", "Option::unwrap_or", (("call", "[]::get", (m.LW, ("call", "Vec::len", (m.acc_state,)))), default))
     return lw, default
 
 
@@ -103,8 +102,7 @@ def _r2(prog, rep, lw):
     body = m.body
     r = Rule(rep, "C07.R2", m.key, site=body.span)
     want, default = _lw_term(m)
-    alt = ("call", "Option::unwrap_or", (("call", "Option::cloned", want[2][0][2]), default))
-    r.check(lw in (want, alt), "lookup",
+    r.check(lw == want, "lookup",
             "line width = line_widths.get(lines.len()) else last listed width else 0.0",
             describe(lw, body)[:200],
             "the current line width is computed as %s; expected line_widths.get(<lines emitted so far>.len()) with fallback "
@@ -146,6 +144,19 @@ def _word_fragment(prog, rep):
 
 
 def run(prog, rep):
+    _core(prog, rep)
+    # text-level restatement ("in wrapped text every line holds as many fragments as fit"): the widths handed to the
+    # algorithm are the configured width minus the indent each line is rendered with (lemma C02)
+    lemmas.load_all()
+    st = lemmas.status(prog, "C02")
+    if st == "ok":
+        rep.ok("C07.R5", "crate", "lemma C02 holds in this run", "evaluated: ok", nontrivial=False)
+    else:
+        rep.violation("C07.R5", "crate", "lemma:C02", "crate", "lemma C02 is %s in this run: the line widths given to first-fit "
+                      "are not the space left beside each line's indent, so wrapped text is not greedy-maximal for its width" % st)
+
+
+def _core(prog, rep):
     guarded(rep, "C07.R4", "crate::<core::Word as core::Fragment>", lambda: _word_fragment(prog, rep))
     box = {}
     guarded(rep, "C07.R1", "crate::wrap_algorithms::wrap_first_fit", lambda: box.setdefault("lw", _r1(prog, rep)))
@@ -158,7 +169,7 @@ def _lemma_r1(prog):
     from ..engine import Report
     rep = Report("C07")
     rep.set_config(prog.config)
-    run(prog, rep)
+    _core(prog, rep)
     return not rep.violations
 
 
